@@ -1,111 +1,52 @@
 //! C02 — term equality / hashing / ordering across every shipped `Term` implementation.
 //!
 //! requests:
-//!   p <A> | <B>          eq / cmp / hash agreement over all ordered pairs of representations
+//!   p <A> | <B>          eq / cmp / hash over ALL ordered pairs of representations (Term::eq/cmp/hash), and the
+//!                        std PartialEq / PartialOrd / Ord / Hash impls of every type that has them (same-type
+//!                        and cross-type)
 //!   c <A>                every conversion path preserves the term (view through accessors)
-//!   t <A> | <B> | <C>    law check on a triple of terms (implementation-side oracle)
+//!   t <A> | <B> | <C>    3x3 eq/cmp/hash matrices (each entry over all representation pairs) + the laws on them
 //!   ns <hexns> <hexsuffix> | <B>   NsTerm's hand-written eq vs the default
+//!   w <iri|bnode|var|tag> <hexA> <hexB>   std impls of the string wrappers (iri/src/_wrap_macro.rs, LanguageTag)
+//!   g <A|-> | <B|->      graph_name_eq on optional terms
+//! a request containing a component outside its wrapper's grammar is answered `skip=...` (no oracle)
+mod reprs;
+
+use reprs::*;
 use sophia_api::ns::Namespace;
 use sophia_api::term::{
-    BnodeId, CmpTerm, FromTerm, IriRef, LanguageTag, SimpleTerm, Term, TermKind, TryFromTerm, VarName,
+    BnodeId, CmpTerm, FromTerm, IriRef, LanguageTag, SimpleTerm, Term, TermKind, TryFromTerm, VarName, graph_name_eq,
 };
-use sophia_rio::model::Trusted;
 use sophia_sparql::ResultTerm;
 use sophia_term::{ArcStrStash, ArcTerm, GenericLiteral, RcTerm};
 use std::cmp::Ordering;
-use std::hash::{DefaultHasher, Hasher};
+use std::hash::{DefaultHasher, Hash, Hasher};
 use vhcore::tgen::{self, TermGen};
 use vhcore::util::*;
 use vhcore::GenCtx;
-
-trait Visitor {
-    fn visit<X: Term + std::fmt::Debug>(&mut self, name: &'static str, x: X);
-}
-
-/// call `v` with every representation of `t` that can hold it
-fn with_reprs<V: Visitor>(t: &T, v: &mut V) {
-    let owned: SimpleTerm<'static> = tgen::to_simple(t);
-    v.visit("simple_owned", owned.clone());
-    v.visit("simple_ref", &owned);
-    v.visit("simple_borrowed", SimpleTerm::from_term_ref(&owned));
-    v.visit("as_simple", owned.as_simple());
-    v.visit("cmp_term", CmpTerm(owned.clone()));
-    v.visit("arc_term", ArcTerm::from_term(owned.borrow_term()));
-    v.visit("rc_term", RcTerm::from_term(owned.borrow_term()));
-    let mut stash = ArcStrStash::new();
-    v.visit("stash_copy", stash.copy_term(owned.borrow_term()));
-    v.visit("result_term", ResultTerm::from(ArcTerm::from_term(owned.borrow_term())));
-    v.visit("option_some", &owned); // graph-name position is Option<T>; the term inside is the same impl
-    match t {
-        T::Iri(s) => {
-            v.visit("iriref_str", IriRef::new_unchecked(s.as_str()));
-            v.visit("iriref_string", IriRef::new_unchecked(s.clone()));
-            if sophia_iri::is_absolute_iri_ref(s) {
-                v.visit("iri_str", sophia_iri::Iri::new_unchecked(s.as_str()));
-            }
-            // every split point at a char boundary gives an NsTerm
-            let cuts: Vec<usize> = s.char_indices().map(|(i, _)| i).chain([s.len()]).collect();
-            for &c in [cuts[0], cuts[cuts.len() / 2], cuts[cuts.len() - 1]].iter() {
-                let ns = Namespace::new_unchecked(&s[..c]);
-                v.visit("ns_term", ns.get_unchecked(&s[c..]));
-            }
-            v.visit("rio_named", Trusted(rio_api::model::NamedNode { iri: s.as_str() }));
-        }
-        T::Bnode(s) => {
-            v.visit("bnode_id", BnodeId::new_unchecked(s.as_str()));
-            v.visit("rio_blank", Trusted(rio_api::model::BlankNode { id: s.as_str() }));
-        }
-        T::Var(s) => {
-            v.visit("var_name", VarName::new_unchecked(s.as_str()));
-            v.visit("rio_var", Trusted(rio_api::model::Variable { name: s.as_str() }));
-        }
-        T::Lit(l, d) => {
-            v.visit("generic_literal", GenericLiteral::Typed(l.as_str(), IriRef::new_unchecked(d.as_str())));
-            if d == "http://www.w3.org/2001/XMLSchema#string" {
-                v.visit("native_str", l.as_str());
-                v.visit("rio_simple", Trusted(rio_api::model::Literal::Simple { value: l.as_str() }));
-            }
-            v.visit(
-                "rio_typed",
-                Trusted(rio_api::model::Literal::Typed { value: l.as_str(), datatype: rio_api::model::NamedNode { iri: d.as_str() } }),
-            );
-            if d == "http://www.w3.org/2001/XMLSchema#integer" {
-                if let Ok(n) = l.parse::<i32>() {
-                    if n.to_string() == *l {
-                        v.visit("native_i32", n);
-                        v.visit("native_isize", n as isize);
-                        if n >= 0 {
-                            v.visit("native_usize", n as usize);
-                        }
-                    }
-                }
-            }
-            if d == "http://www.w3.org/2001/XMLSchema#boolean" && (l == "true" || l == "false") {
-                v.visit("native_bool", l == "true");
-            }
-        }
-        T::Lang(l, tag) => {
-            v.visit(
-                "generic_lang",
-                GenericLiteral::LanguageString(l.as_str(), LanguageTag::new_unchecked(tag.as_str())),
-            );
-            v.visit("str_times_tag", l.as_str() * LanguageTag::new_unchecked(tag.as_str()));
-            v.visit(
-                "rio_lang",
-                Trusted(rio_api::model::Literal::LanguageTaggedString { value: l.as_str(), language: tag.as_str() }),
-            );
-        }
-        T::Triple(_) => {
-            let [s, p, o] = owned.to_triple().unwrap();
-            v.visit("array3", SimpleTerm::Triple(Box::new([s, p, o])));
-        }
-    }
-}
 
 fn h<X: Term>(x: &X) -> u64 {
     let mut s = DefaultHasher::new();
     Term::hash(x, &mut s);
     s.finish()
+}
+fn sh<X: Hash>(x: &X) -> u64 {
+    let mut s = DefaultHasher::new();
+    Hash::hash(x, &mut s);
+    s.finish()
+}
+fn ord(o: Ordering) -> &'static str {
+    match o {
+        Ordering::Less => "lt",
+        Ordering::Equal => "eq",
+        Ordering::Greater => "gt",
+    }
+}
+fn pord(o: Option<Ordering>) -> &'static str {
+    o.map(ord).unwrap_or("none")
+}
+fn b2s(b: bool) -> &'static str {
+    if b { "1" } else { "0" }
 }
 
 #[derive(Default)]
@@ -114,110 +55,194 @@ struct Agg {
     who: Vec<String>,
 }
 impl Agg {
-    fn add(&mut self, v: String, who: String) {
-        if self.vals.insert(v.clone()) {
-            self.who.push(format!("{}:{}", who, v));
+    fn add(&mut self, v: &str, who: &dyn Fn() -> String) {
+        if !self.vals.contains(v) {
+            self.vals.insert(v.to_string());
+            self.who.push(format!("{}:{}", who(), v));
         }
     }
+    fn mixed(&self) -> bool {
+        self.vals.len() > 1
+    }
     fn get(&self) -> String {
-        if self.vals.len() == 1 { self.vals.iter().next().unwrap().clone() } else { format!("MIXED({})", self.who.join(",")) }
+        match self.vals.len() {
+            0 => "-".into(),
+            1 => self.vals.iter().next().unwrap().clone(),
+            _ => format!("MIXED({})", self.who.join(",")),
+        }
+    }
+    /// one character for the 3x3 matrices
+    fn ch(&self) -> char {
+        if self.vals.len() != 1 {
+            return 'M';
+        }
+        match self.vals.iter().next().unwrap().as_str() {
+            "1" => '1',
+            "0" => '0',
+            "lt" => 'l',
+            "eq" => 'e',
+            "gt" => 'g',
+            _ => '?',
+        }
+    }
+    /// "is the comparison Equal": 1 / 0 / MIXED
+    fn is_eq(&self) -> String {
+        if self.vals.iter().all(|v| v == "eq") {
+            "1".into()
+        } else if self.vals.iter().all(|v| v != "eq") {
+            "0".into()
+        } else {
+            self.get()
+        }
     }
 }
 
 struct Inner<'a, X> {
     x: &'a X,
+    hx: u64,
     xname: &'static str,
-    eq: &'a mut Agg,
-    cmp: &'a mut Agg,
-    heq: &'a mut Agg,
-    pairs: &'a mut u64,
+    m: &'a mut Matrix,
 }
 impl<X: Term> Visitor for Inner<'_, X> {
     fn visit<Y: Term + std::fmt::Debug>(&mut self, name: &'static str, y: Y) {
-        let who = format!("{}/{}", self.xname, name);
-        *self.pairs += 1;
-        self.eq.add((Term::eq(self.x, y.borrow_term()) as u8).to_string(), who.clone());
-        let c = match Term::cmp(self.x, y.borrow_term()) {
-            Ordering::Less => "lt",
-            Ordering::Equal => "eq",
-            Ordering::Greater => "gt",
-        };
-        self.cmp.add(c.to_string(), who.clone());
-        self.heq.add(((h(self.x) == h(&y)) as u8).to_string(), who);
+        let xname = self.xname;
+        let who = || format!("{}/{}", xname, name);
+        self.m.pairs += 1;
+        self.m.eq.add(b2s(Term::eq(self.x, y.borrow_term())), &who);
+        self.m.cmp.add(ord(Term::cmp(self.x, y.borrow_term())), &who);
+        self.m.heq.add(b2s(self.hx == h(&y)), &who);
     }
 }
-struct Outer<'a> {
-    b: &'a T,
+#[derive(Default)]
+struct Matrix {
     eq: Agg,
     cmp: Agg,
     heq: Agg,
     pairs: u64,
 }
+struct Outer<'a> {
+    b: &'a T,
+    m: Matrix,
+}
 impl Visitor for Outer<'_> {
     fn visit<X: Term + std::fmt::Debug>(&mut self, name: &'static str, x: X) {
-        let mut inner = Inner { x: &x, xname: name, eq: &mut self.eq, cmp: &mut self.cmp, heq: &mut self.heq, pairs: &mut self.pairs };
+        let mut inner = Inner { x: &x, hx: h(&x), xname: name, m: &mut self.m };
         with_reprs(self.b, &mut inner);
     }
 }
+/// Term::eq / cmp / hash-equality of `a` against `b` over all ordered pairs of representations
+fn matrix(a: &T, b: &T) -> Matrix {
+    let mut o = Outer { b, m: Matrix::default() };
+    with_reprs(a, &mut o);
+    o.m
+}
 
-/// std trait impls that re-implement eq/ord/hash by hand
-fn std_traits(a: &T, b: &T) -> Vec<String> {
-    let mut fails = vec![];
+#[derive(Default)]
+struct StdRes {
+    seq: Agg,
+    scmp: Agg,
+    sheq: Agg,
+    shx: Agg,
+    n: u64,
+}
+
+/// the std trait impls (PartialEq<T>, Eq, PartialOrd<T>, Ord, Hash) of every type that has them
+fn std_traits(a: &T, b: &T) -> StdRes {
+    let mut r = StdRes::default();
     let (sa, sb) = (tgen::to_simple(a), tgen::to_simple(b));
-    let e = Term::eq(&sa, &sb);
-    let c = Term::cmp(&sa, &sb);
-    if (sa == sb) != e {
-        fails.push("SimpleTerm::PartialEq".to_string());
+    let (ha, hb) = (h(&sa), h(&sb));
+    // same type on both sides: ==, !=, Ord::cmp, partial_cmp, Hash (+ std Hash == Term::hash)
+    macro_rules! fam {
+        ($name:expr, $fa:expr, $fb:expr) => {{
+            let (fa, fb) = (&$fa, &$fb);
+            let who = || $name.to_string();
+            r.n += 1;
+            r.seq.add(b2s(*fa == *fb), &who);
+            r.seq.add(b2s(!(*fa != *fb)), &who);
+            r.scmp.add(ord(Ord::cmp(fa, fb)), &who);
+            r.scmp.add(pord(PartialOrd::partial_cmp(fa, fb)), &who);
+            r.scmp.add(ord(Ord::cmp(fb, fa).reverse()), &who);
+            r.sheq.add(b2s(sh(fa) == sh(fb)), &who);
+            r.shx.add(b2s(sh(fa) == ha && sh(fb) == hb), &who);
+        }};
     }
+    // different types: ==, partial_cmp
+    macro_rules! cross {
+        ($name:expr, $x:expr, $y:expr) => {{
+            let who = || $name.to_string();
+            r.n += 1;
+            r.seq.add(b2s($x == $y), &who);
+            r.scmp.add(pord(PartialOrd::partial_cmp(&$x, &$y)), &who);
+        }};
+    }
+    fam!("SimpleTerm", sa, sb);
+    let (ba, bb) = (SimpleTerm::from_term_ref(&sa), SimpleTerm::from_term_ref(&sb));
+    fam!("SimpleTerm(borrowed)", ba, bb);
     let (ca, cb) = (CmpTerm(sa.clone()), CmpTerm(sb.clone()));
-    if (ca == cb) != e || Ord::cmp(&ca, &cb) != c || ca.partial_cmp(&cb) != Some(c) {
-        fails.push("CmpTerm::Eq/Ord".to_string());
-    }
+    fam!("CmpTerm<SimpleTerm>", ca, cb);
     let (aa, ab) = (ArcTerm::from_term(sa.borrow_term()), ArcTerm::from_term(sb.borrow_term()));
-    if (aa == ab) != e || Ord::cmp(&aa, &ab) != c {
-        fails.push("ArcTerm::Eq/Ord".to_string());
-    }
+    fam!("ArcTerm", aa, ab);
+    let (cra, crb) = (CmpTerm(&aa), CmpTerm(&ab));
+    fam!("CmpTerm<&ArcTerm>", cra, crb);
     let (ra, rb) = (RcTerm::from_term(sa.borrow_term()), RcTerm::from_term(sb.borrow_term()));
-    if (ra == rb) != e || Ord::cmp(&ra, &rb) != c {
-        fails.push("RcTerm::Eq/Ord".to_string());
-    }
-    let hh = |x: &dyn Fn(&mut DefaultHasher)| {
-        let mut s = DefaultHasher::new();
-        x(&mut s);
-        s.finish()
-    };
-    use std::hash::Hash;
-    if e {
-        if hh(&|s| Hash::hash(&sa, s)) != hh(&|s| Hash::hash(&sb, s)) {
-            fails.push("SimpleTerm::Hash".to_string());
-        }
-        if hh(&|s| Hash::hash(&ca, s)) != hh(&|s| Hash::hash(&cb, s)) {
-            fails.push("CmpTerm::Hash".to_string());
-        }
-        if hh(&|s| Hash::hash(&aa, s)) != hh(&|s| Hash::hash(&ab, s)) {
-            fails.push("ArcTerm::Hash".to_string());
-        }
-    }
+    fam!("RcTerm", ra, rb);
     let (qa, qb) = (ResultTerm::from(aa.clone()), ResultTerm::from(ab.clone()));
-    if (qa == qb) != e {
-        fails.push("ResultTerm::PartialEq".to_string());
+    fam!("ResultTerm", qa, qb);
+    cross!("SimpleTerm/ArcTerm", sa, ab);
+    cross!("ArcTerm/SimpleTerm", aa, sb);
+    cross!("CmpTerm/SimpleTerm", ca, sb);
+    cross!("CmpTerm/RcTerm", ca, rb);
+    cross!("RcTerm/ResultTerm", ra, qb);
+    cross!("ResultTerm/ArcTerm", qa, ab);
+    cross!("ResultTerm/CmpTerm", qa, cb);
+    cross!("SimpleTerm(borrowed)/RcTerm", ba, rb);
+    let ga = GenericLiteral::<Box<str>>::try_from_term(sa.borrow_term()).ok();
+    let gb = GenericLiteral::<Box<str>>::try_from_term(sb.borrow_term()).ok();
+    if let Some(ga) = &ga {
+        cross!("GenericLiteral/SimpleTerm", *ga, sb);
+        cross!("GenericLiteral/ArcTerm", *ga, ab);
+        if let Some(gb) = &gb {
+            fam!("GenericLiteral", *ga, *gb);
+            let (cga, cgb) = (CmpTerm(ga.clone()), CmpTerm(gb.clone()));
+            fam!("CmpTerm<GenericLiteral>", cga, cgb);
+        }
     }
-    fails
+    if let Some(gb) = &gb {
+        cross!("SimpleTerm/GenericLiteral", sa, *gb);
+    }
+    if let T::Iri(s) = a {
+        let cuts: Vec<usize> = s.char_indices().map(|(i, _)| i).chain([s.len()]).collect();
+        for &c in [cuts[0], cuts[cuts.len() / 2], cuts[cuts.len() - 1]].iter() {
+            if IriRef::new(&s[..c]).is_ok() {
+                let ns = Namespace::new_unchecked(&s[..c]);
+                let nt = ns.get_unchecked(&s[c..]);
+                let who = || "NsTerm/SimpleTerm".to_string();
+                r.n += 1;
+                r.seq.add(b2s(nt == sb), &who);
+                r.seq.add(b2s(nt == ab), &who);
+            }
+        }
+    }
+    r
 }
 
 struct Conv<'a> {
     t: &'a T,
     bad: Vec<String>,
+    inexact: Vec<String>,
     n: u64,
 }
 impl Visitor for Conv<'_> {
     fn visit<X: Term + std::fmt::Debug>(&mut self, name: &'static str, x: X) {
+        let src = tgen::to_simple(self.t);
+        let mut wrong_kind = false;
         let mut chk = |path: &str, got: T| {
             self.n += 1;
-            // conversions must yield an *equal* term: compare up to tag case
-            let same = Term::eq(&tgen::to_simple(&got), tgen::to_simple(self.t));
-            if !same {
+            // the property demands an *equal* term; every shipped conversion is moreover exact
+            if !Term::eq(&tgen::to_simple(&got), src.borrow_term()) {
                 self.bad.push(format!("{}.{}", name, path));
+            } else if got != *self.t {
+                self.inexact.push(format!("{}.{}", name, path));
             }
         };
         chk("view", tgen::view(x.borrow_term()));
@@ -225,69 +250,198 @@ impl Visitor for Conv<'_> {
         chk("from_term_ref", tgen::view(SimpleTerm::from_term_ref(&x)));
         chk("as_simple", tgen::view(x.as_simple()));
         chk("ArcTerm::from_term", tgen::view(ArcTerm::from_term(x.borrow_term())));
-        chk("RcTerm::from_term", tgen::view(RcTerm::from_term(x.borrow_term())));
+        chk("into_term<RcTerm>", tgen::view(x.borrow_term().into_term::<RcTerm>()));
         chk("try_into_term<SimpleTerm>", tgen::view(x.borrow_term().try_into_term::<SimpleTerm>().unwrap()));
+        chk("CmpTerm<SimpleTerm>::from_term", tgen::view(CmpTerm::<SimpleTerm>::from_term(x.borrow_term())));
+        chk("into_term<CmpTerm<ArcTerm>>", tgen::view(x.borrow_term().into_term::<CmpTerm<ArcTerm>>()));
+        chk("CmpTerm<SimpleTerm>::try_from_term", tgen::view(CmpTerm::<SimpleTerm>::try_from_term(x.borrow_term()).unwrap()));
+        chk("ResultTerm::from", tgen::view(ResultTerm::from(ArcTerm::from_term(x.borrow_term()))));
+        chk("ResultTerm::borrow_term", tgen::view(ResultTerm::from(ArcTerm::from_term(x.borrow_term())).borrow_term()));
         let mut st = ArcStrStash::new();
         chk("stash.copy_term", tgen::view(st.copy_term(x.borrow_term())));
+        chk("stash.copy_term(2nd)", tgen::view(st.copy_term(x.borrow_term())));
+        let lit = GenericLiteral::<Box<str>>::try_from_term(x.borrow_term());
+        let lit_arc = CmpTerm::<GenericLiteral<std::sync::Arc<str>>>::try_from_term(x.borrow_term());
         match x.kind() {
             TermKind::Iri => chk("iri()", T::Iri(x.iri().unwrap().as_str().to_string())),
             TermKind::BlankNode => chk("bnode_id()", T::Bnode(x.bnode_id().unwrap().as_str().to_string())),
             TermKind::Variable => chk("variable()", T::Var(x.variable().unwrap().as_str().to_string())),
-            TermKind::Literal => {
-                if let Ok(i) = GenericLiteral::<Box<str>>::try_from_term(x.borrow_term()) {
-                    chk("GenericLiteral::try_from_term", tgen::view(i));
-                } else {
-                    self.bad.push(format!("{}.GenericLiteral::try_from_term:err", name));
-                }
+            TermKind::Literal => {}
+            TermKind::Triple => {
+                let [s, p, o] = x.triple().unwrap();
+                chk("triple()", T::Triple(Box::new([tgen::view(s), tgen::view(p), tgen::view(o)])));
+                chk("from_triple", tgen::view(SimpleTerm::from_triple([s, p, o])));
+                let [s, p, o] = x.borrow_term().to_triple().unwrap();
+                chk("to_triple()", T::Triple(Box::new([tgen::view(s), tgen::view(p), tgen::view(o)])));
             }
-            TermKind::Triple => {}
+        }
+        // TryFromTerm of the literal-only type: Ok exactly for literals, and then an equal term
+        match (x.kind() == TermKind::Literal, lit, lit_arc) {
+            (true, Ok(l), Ok(la)) => {
+                chk("GenericLiteral::try_from_term", tgen::view(l));
+                chk("CmpTerm<GenericLiteral<Arc>>::try_from_term", tgen::view(la));
+            }
+            (false, Err(_), Err(_)) => {}
+            _ => wrong_kind = true,
+        }
+        if wrong_kind {
+            self.bad.push(format!("{}.GenericLiteral::try_from_term:wrong-result-kind", name));
         }
     }
 }
 
-pub fn generate(ctx: &mut GenCtx) {
+const TAGS: &[&str] = &["x-a-b9", "X-A-B9", "zh-Hant-TW", "zh-hant-tw", "ZH-HANT-TW", "de-CH-1996", "DE-ch-1996", "fr-FR", "FR-fr", "i-klingon", "e", "en-US", "en-us"];
+
+fn randcase(r: &mut Rng, s: &str) -> String {
+    s.chars().map(|c| if r.chance(1, 2) { c.to_ascii_uppercase() } else { c.to_ascii_lowercase() }).collect()
+}
+
+/// `a` with every language tag (at any depth) re-cased at random: an equal term
+fn recase(r: &mut Rng, a: &T) -> T {
+    match a {
+        T::Lang(l, t) => T::Lang(l.clone(), randcase(r, t)),
+        T::Triple(b) => T::Triple(Box::new([recase(r, &b[0]), recase(r, &b[1]), recase(r, &b[2])])),
+        o => o.clone(),
+    }
+}
+
+/// a term differing from `a` in exactly one component (tag case, datatype, kind with the same string, one
+/// nested atom at any depth) — or equal to it up to tag case
+fn near(g: &TermGen, r: &mut Rng, a: &T) -> T {
+    match a {
+        T::Lang(l, t) => match r.below(4) {
+            0 | 1 => T::Lang(l.clone(), randcase(r, t)),
+            2 => T::Lang(r.pick(&g.lexicals).clone(), t.clone()),
+            _ => T::Lit(l.clone(), r.pick(&g.datatypes).clone()),
+        },
+        T::Lit(l, d) => match r.below(4) {
+            0 => T::Lit(l.clone(), r.pick(&g.datatypes).clone()),
+            1 => T::Lit(r.pick(&g.lexicals).clone(), d.clone()),
+            2 => T::Lit(l.clone(), format!("{}x", d)),
+            _ => T::Lang(l.clone(), r.pick(&g.tags).clone()),
+        },
+        T::Triple(b) => {
+            let mut c = b.clone();
+            let i = r.below(3);
+            c[i] = if r.chance(2, 3) { near(g, r, &b[i]) } else { g.term(r, 1) };
+            T::Triple(c)
+        }
+        T::Iri(s) => match r.below(4) {
+            0 => T::Bnode(s.clone()),
+            1 => T::Var(s.clone()),
+            2 => T::Lit(s.clone(), XSD_STRING.into()),
+            _ => T::Iri(format!("{}x", s)),
+        },
+        T::Bnode(s) => match r.below(3) {
+            0 => T::Var(s.clone()),
+            1 => T::Iri(s.clone()),
+            _ => T::Bnode(r.pick(&g.bnodes).clone()),
+        },
+        T::Var(s) => match r.below(3) {
+            0 => T::Bnode(s.clone()),
+            1 => T::Iri(s.clone()),
+            _ => T::Var(r.pick(&g.vars).clone()),
+        },
+    }
+}
+
+fn term_gen(ctx: &mut GenCtx) -> TermGen {
     let mut g = TermGen::default();
-    g.datatypes.push("http://www.w3.org/2001/XMLSchema#boolean".into());
-    g.lexicals.extend(["true".to_string(), "-7".to_string(), "\u{7f}".into(), "\u{80}".into(), "\u{7ff}".into(), "\u{800}".into(), "\u{ffff}".into()]);
-    g.iris.extend(["http://ex.org/\u{7ff}".to_string(), "http://ex.org/\u{800}".to_string(), "http://ex.org/\u{10000}".to_string(), "http://ex.org/\u{ffef}".to_string()]);
-    let n = if ctx.thorough { 30000 } else { 3000 };
-    let near = |g: &TermGen, r: &mut Rng, a: &T| -> T {
-        // differ in exactly one component (tag case, datatype, one nested atom) or be equal
-        match a {
-            T::Lang(l, t) => match r.below(3) {
-                0 => T::Lang(l.clone(), if r.chance(1, 2) { t.to_uppercase() } else { t.to_lowercase() }),
-                1 => T::Lang(r.pick(&g.lexicals).clone(), t.clone()),
-                _ => T::Lit(l.clone(), r.pick(&g.datatypes).clone()),
-            },
-            T::Lit(l, d) => match r.below(3) {
-                0 => T::Lit(l.clone(), r.pick(&g.datatypes).clone()),
-                1 => T::Lit(r.pick(&g.lexicals).clone(), d.clone()),
-                _ => T::Lang(l.clone(), r.pick(&g.tags).clone()),
-            },
-            T::Triple(b) => {
-                let mut c = b.clone();
-                let i = r.below(3);
-                c[i] = g.term(r, 1);
-                T::Triple(c)
+    g.datatypes.extend([XSD_BOOLEAN.to_string(), XSD_DOUBLE.to_string()]);
+    g.datatypes.extend(tgen::NEAR_MISS_DATATYPES.iter().take(6).map(|s| s.to_string()));
+    g.datatypes.push(format!("{}x", RDF_LANGSTRING));
+    g.lexicals.extend(
+        ["true", "-7", "\u{7f}", "\u{80}", "\u{7ff}", "\u{800}", "\u{ffff}", "1.5", "NaN", "INF", "-INF", "-0", "v", "en", "é\u{301}", "e\u{301}"]
+            .map(String::from),
+    );
+    g.lexicals.push("long ".repeat(60));
+    g.iris.extend(["http://ex.org/\u{7ff}", "http://ex.org/\u{800}", "http://ex.org/\u{10000}", "http://ex.org/\u{ffef}", "v", "b0", "http://ex.org/A", "HTTP://ex.org/a", "http://ex.org/a/../a", "http://ex.org/%61"].map(String::from));
+    g.iris.extend(tgen::NEAR_MISS_VOCAB.iter().take(3).map(|s| s.to_string()));
+    g.iris.push(format!("http://ex.org/{}", "seg/".repeat(50)));
+    g.bnodes.extend(["v", "b0x", "B0"].map(String::from));
+    g.vars.extend(["b0", "V"].map(String::from));
+    g.tags.extend(TAGS.iter().map(|s| s.to_string()));
+    // an alphabet entry outside the grammar of its wrapper would only trip a debug assertion: drop it here
+    let mut dropped = 0;
+    let mut keep = |v: &mut Vec<String>, ok: &dyn Fn(&str) -> bool| {
+        let n = v.len();
+        v.retain(|s| ok(s));
+        dropped += n - v.len();
+    };
+    keep(&mut g.iris, &|s| IriRef::new(s).is_ok());
+    keep(&mut g.datatypes, &|s| sophia_iri::Iri::new(s).is_ok() && s != RDF_LANGSTRING);
+    keep(&mut g.bnodes, &|s| BnodeId::new(s).is_ok());
+    keep(&mut g.vars, &|s| VarName::new(s).is_ok());
+    keep(&mut g.tags, &|s| LanguageTag::new(s).is_ok());
+    ctx.stats.add("gen.alphabet_entries_dropped_invalid", dropped as u64);
+    g
+}
+
+fn count_shape(ctx: &mut GenCtx, a: &T) {
+    ctx.stats.bump(&format!("kindA.{}", kind_name(a)));
+    ctx.stats.bump(&format!("depthA.{}", a.depth()));
+    if is_strict(a) && a.depth() > 0 {
+        ctx.stats.bump("shapeA.strict_triple");
+    }
+    let mut names = Names(vec![]);
+    with_reprs(a, &mut names);
+    ctx.stats.add("reprs_of_A.total", names.0.len() as u64);
+    names.0.sort();
+    names.0.dedup();
+    for n in names.0 {
+        ctx.stats.bump(&format!("repr.{}", n));
+    }
+}
+
+pub fn generate(ctx: &mut GenCtx) {
+    let g = term_gen(ctx);
+    let n = if ctx.thorough { 20000 } else { 2400 };
+    // literals a native Rust value can hold (i32/isize/usize/bool/f64/str): (lexical, datatype)
+    let native: Vec<(&str, &str)> = vec![
+        ("42", XSD_INTEGER), ("-7", XSD_INTEGER), ("0", XSD_INTEGER), ("2147483647", XSD_INTEGER), ("1", XSD_INTEGER),
+        ("true", XSD_BOOLEAN), ("false", XSD_BOOLEAN),
+        ("1.5", XSD_DOUBLE), ("NaN", XSD_DOUBLE), ("INF", XSD_DOUBLE), ("-INF", XSD_DOUBLE), ("-0", XSD_DOUBLE), ("1", XSD_DOUBLE),
+        ("chat", XSD_STRING), ("", XSD_STRING), ("1", XSD_STRING), ("true", XSD_STRING),
+    ];
+    let any = |g: &TermGen, r: &mut Rng| -> T {
+        let depth = match r.below(10) {
+            0..=5 => 2,
+            6..=7 => 1,
+            _ => 3,
+        };
+        match r.below(12) {
+            0..=3 => g.term(r, depth),
+            4..=5 => g.object(r, depth),
+            6 => g.literal(r),
+            7 => {
+                let (l, d) = r.pick(&native);
+                T::Lit(l.to_string(), d.to_string())
             }
-            T::Iri(s) => match r.below(3) {
-                0 => T::Bnode("b0".into()),
-                1 => T::Var("v".into()),
-                _ => T::Iri(format!("{}x", s)),
-            },
-            other => other.clone(),
+            8..=9 => g.strict_triple(r, depth - 1),
+            _ => T::Triple(Box::new([g.term(r, depth - 1), g.term(r, depth - 1), g.term(r, depth - 1)])),
         }
     };
     for i in 0..n {
-        let a = g.term(&mut ctx.rng, 2);
+        let a = any(&g, &mut ctx.rng);
         let b = match ctx.rng.below(10) {
-            0..=1 => a.clone(),
-            2..=4 => near(&g, &mut ctx.rng, &a),
-            _ => g.term(&mut ctx.rng, 2),
+            0 => a.clone(),
+            1 => recase(&mut ctx.rng, &a),
+            2..=5 => (0..6).map(|_| near(&g, &mut ctx.rng, &a)).find(well_formed).unwrap_or_else(|| a.clone()),
+            _ => any(&g, &mut ctx.rng),
         };
-        ctx.stats.bump(&format!("kindA.{}", kind_name(&a)));
+        if !(well_formed(&a) && well_formed(&b)) {
+            ctx.stats.bump("gen.skipped_not_well_formed");
+            continue;
+        }
+        count_shape(ctx, &a);
         if a == b {
             ctx.stats.bump("pair.identical");
+        } else if Term::eq(&tgen::to_simple(&a), tgen::to_simple(&b)) {
+            ctx.stats.bump("pair.equal_up_to_tag_case");
+        } else if kind_name(&a) == kind_name(&b) {
+            ctx.stats.bump("pair.same_kind_different");
+        } else {
+            ctx.stats.bump("pair.cross_kind");
         }
         ctx.emit(&format!("p {} | {}", a.render(), b.render()));
         if i < 3 {
@@ -295,19 +449,76 @@ pub fn generate(ctx: &mut GenCtx) {
         }
         if i % 3 == 0 {
             ctx.emit(&format!("c {}", a.render()));
+            ctx.stats.bump("req.c");
         }
         if i % 3 == 1 {
-            let c = if ctx.rng.chance(1, 2) { near(&g, &mut ctx.rng, &b) } else { g.term(&mut ctx.rng, 2) };
-            ctx.emit(&format!("t {} | {} | {}", a.render(), b.render(), c.render()));
+            let c = match ctx.rng.below(3) {
+                0 => near(&g, &mut ctx.rng, &b),
+                1 => near(&g, &mut ctx.rng, &a),
+                _ => any(&g, &mut ctx.rng),
+            };
+            if well_formed(&c) {
+                ctx.emit(&format!("t {} | {} | {}", a.render(), b.render(), c.render()));
+                ctx.stats.bump("req.t");
+            }
+        }
+        if i % 5 == 2 {
+            let opt = |r: &mut Rng, t: &T| if r.chance(1, 4) { "-".to_string() } else { t.render() };
+            let (x, y) = (opt(&mut ctx.rng, &a), opt(&mut ctx.rng, &b));
+            ctx.emit(&format!("g {} | {}", x, y));
+            ctx.stats.bump("req.g");
         }
         if let T::Iri(s) = &a {
-            if i % 2 == 0 {
-                let cuts: Vec<usize> = s.char_indices().map(|(i, _)| i).chain([s.len()]).collect();
-                let c = cuts[ctx.rng.below(cuts.len())];
-                // suffix may also be a *different* one
-                let suf = if ctx.rng.chance(1, 3) { format!("{}x", &s[c..]) } else { s[c..].to_string() };
-                ctx.emit(&format!("ns {} {} | {}", hex(&s[..c]), hex(&suf), b.render()));
-                ctx.emit(&format!("ns {} {} | {}", hex(&s[..c]), hex(&suf), a.render()));
+            let cuts: Vec<usize> = s.char_indices().map(|(i, _)| i).chain([s.len()]).collect();
+            let c = cuts[ctx.rng.below(cuts.len())];
+            let (ns, local) = (&s[..c], &s[c..]);
+            // the NsTerm denotes `a`, or `a` + "x", or has a suffix that is only a *suffix* of the other IRI's
+            // remainder (ns + junk + suffix), or an empty suffix
+            let (suf, other) = match ctx.rng.below(6) {
+                0 => (format!("{}x", local), a.clone()),
+                1 => (local.to_string(), T::Iri(format!("{}junk/{}", ns, local))),
+                2 => (String::new(), a.clone()),
+                3 => (local.to_string(), T::Iri(format!("{}{}{}", ns, local, local))),
+                _ => (local.to_string(), a.clone()),
+            };
+            if well_formed(&other) && IriRef::new(ns).is_ok() && IriRef::new(format!("{}{}", ns, suf)).is_ok() {
+                ctx.emit(&format!("ns {} {} | {}", hex(ns), hex(&suf), other.render()));
+                ctx.emit(&format!("ns {} {} | {}", hex(ns), hex(&suf), b.render()));
+                ctx.stats.add("req.ns", 2);
+                if suf.is_empty() {
+                    ctx.stats.bump("ns.empty_suffix");
+                }
+                if let T::Iri(o) = &other {
+                    if o.starts_with(ns) && o.ends_with(suf.as_str()) && o.len() > ns.len() + suf.len() {
+                        ctx.stats.bump("ns.prefix_and_suffix_match_but_longer");
+                    }
+                }
+            }
+        }
+        // wrappers of strings
+        if i % 4 == 3 {
+            let (kind, pool): (&str, &Vec<String>) = match ctx.rng.below(4) {
+                0 => ("iri", &g.iris),
+                1 => ("bnode", &g.bnodes),
+                2 => ("var", &g.vars),
+                _ => ("tag", &g.tags),
+            };
+            let x = ctx.rng.pick(pool).clone();
+            let y = match ctx.rng.below(4) {
+                0 => x.clone(),
+                1 => randcase(&mut ctx.rng, &x),
+                2 => format!("{}x", x),
+                _ => ctx.rng.pick(pool).clone(),
+            };
+            let ok = |s: &str| match kind {
+                "iri" => IriRef::new(s).is_ok(),
+                "bnode" => BnodeId::new(s).is_ok(),
+                "var" => VarName::new(s).is_ok(),
+                _ => LanguageTag::new(s).is_ok(),
+            };
+            if ok(&x) && ok(&y) {
+                ctx.emit(&format!("w {} {} {}", kind, hex(&x), hex(&y)));
+                ctx.stats.bump(&format!("req.w.{}", kind));
             }
         }
     }
@@ -323,9 +534,102 @@ fn kind_name(t: &T) -> &'static str {
         T::Var(_) => "var",
     }
 }
+fn tkind(t: &T) -> u8 {
+    match t {
+        T::Bnode(_) => 0,
+        T::Iri(_) => 1,
+        T::Lit(..) | T::Lang(..) => 2,
+        T::Triple(_) => 3,
+        T::Var(_) => 4,
+    }
+}
 
 fn parse_terms(s: &str) -> Option<Vec<T>> {
     s.split('|').map(|part| T::parse(&mut part.split_whitespace())).collect()
+}
+fn parse_opt_terms(s: &str) -> Option<Vec<Option<T>>> {
+    s.split('|').map(|part| if part.trim() == "-" { Some(None) } else { T::parse(&mut part.split_whitespace()).map(Some) }).collect()
+}
+
+/// the laws, on 3x3 matrices whose entries already aggregate every pair of representations
+fn laws(eq: &[[char; 3]; 3], cmp: &[[char; 3]; 3], heq: &[[char; 3]; 3]) -> Vec<&'static str> {
+    let mut fails = vec![];
+    let rev = |c: char| match c {
+        'l' => 'g',
+        'g' => 'l',
+        o => o,
+    };
+    for i in 0..3 {
+        if eq[i][i] != '1' || cmp[i][i] != 'e' || heq[i][i] != '1' {
+            fails.push("refl");
+        }
+        for j in 0..3 {
+            if eq[i][j] == 'M' || cmp[i][j] == 'M' || (eq[i][j] == '1' && heq[i][j] == 'M') {
+                fails.push("representation-dependent");
+            }
+            if eq[i][j] != eq[j][i] {
+                fails.push("eq_symm");
+            }
+            if cmp[i][j] != rev(cmp[j][i]) {
+                fails.push("cmp_swap");
+            }
+            if (cmp[i][j] == 'e') != (eq[i][j] == '1') {
+                fails.push("cmp_eq_iff");
+            }
+            if eq[i][j] == '1' && heq[i][j] != '1' {
+                fails.push("eq_hash");
+            }
+            for k in 0..3 {
+                if eq[i][j] == '1' && eq[j][k] == '1' && eq[i][k] != '1' {
+                    fails.push("eq_trans");
+                }
+                if cmp[i][j] != 'g' && cmp[j][k] != 'g' && cmp[i][k] == 'g' {
+                    fails.push("cmp_trans");
+                }
+                if cmp[i][j] == 'l' && cmp[j][k] == 'l' && cmp[i][k] != 'l' {
+                    fails.push("cmp_trans_lt");
+                }
+            }
+        }
+    }
+    fails.sort();
+    fails.dedup();
+    fails
+}
+
+/// std impls of one string wrapper family; `$mk_ref` / `$mk_own` build the borrowed and the owning flavour
+macro_rules! wrapper_family {
+    ($r:expr, $a:expr, $b:expr, $ty:ident) => {{
+        let (xa, xb) = ($ty::new_unchecked($a.as_str()), $ty::new_unchecked($b.as_str()));
+        let (oa, ob) = ($ty::new_unchecked($a.clone()), $ty::new_unchecked($b.clone()));
+        let (ba, bb) = ($ty::new_unchecked(Box::<str>::from($a.as_str())), $ty::new_unchecked(Box::<str>::from($b.as_str())));
+        let who = || stringify!($ty).to_string();
+        $r.weq.add(b2s(xa == xb), &who);
+        $r.weq.add(b2s(oa == ob), &who);
+        $r.weq.add(b2s(ba == bb), &who);
+        $r.weq.add(b2s(!(xa != xb)), &who);
+        $r.weq.add(b2s(xa == *$b.as_str()), &who);
+        $r.weq.add(b2s(oa == *$b.as_str()), &who);
+        $r.wcmp.add(ord(Ord::cmp(&xa, &xb)), &who);
+        $r.wcmp.add(ord(Ord::cmp(&oa, &ob)), &who);
+        $r.wcmp.add(ord(Ord::cmp(&ob, &oa).reverse()), &who);
+        $r.wcmp.add(pord(PartialOrd::partial_cmp(&xa, &xb)), &who);
+        $r.wcmp.add(pord(PartialOrd::partial_cmp(&ba, &bb)), &who);
+        $r.wcmp.add(pord(PartialOrd::partial_cmp(&xa, $b.as_str())), &who);
+        $r.wheq.add(b2s(sh(&xa) == sh(&xb)), &who);
+        $r.wheq.add(b2s(sh(&oa) == sh(&ob)), &who);
+        $r.wheq.add(b2s(sh(&xa) == sh(&ob)), &who);
+        $r.wheq.add(b2s(sh(&ba) == sh(&xb)), &who);
+        // Borrow<str> contract: the wrapper hashes like the string it wraps
+        $r.wborrow.add(b2s(sh(&xa) == sh(&$a.as_str()) && sh(&ob) == sh(&$b.as_str())), &who);
+    }};
+}
+#[derive(Default)]
+struct WRes {
+    weq: Agg,
+    wcmp: Agg,
+    wheq: Agg,
+    wborrow: Agg,
 }
 
 pub fn exec(line: &str) -> String {
@@ -333,72 +637,224 @@ pub fn exec(line: &str) -> String {
     match op {
         "p" => {
             let Some(ts) = parse_terms(rest) else { return "bad-op".into() };
-            let (a, b) = (&ts[0], &ts[1]);
-            let mut o = Outer { b, eq: Agg::default(), cmp: Agg::default(), heq: Agg::default(), pairs: 0 };
-            with_reprs(a, &mut o);
-            let fails = std_traits(a, b);
-            let mut out = format!("eq={} cmp={} heq={} pairs={}", o.eq.get(), o.cmp.get(), o.heq.get(), o.pairs);
-            if !fails.is_empty() {
-                out += &format!(" FAIL.std_traits={}", fails.join(","));
+            if ts.len() != 2 {
+                return "bad-op".into();
             }
-            if o.eq.get() == "1" && o.heq.get() != "1" {
+            let (a, b) = (&ts[0], &ts[1]);
+            if !(well_formed(a) && well_formed(b)) {
+                return "skip=not-well-formed".into();
+            }
+            let m = matrix(a, b);
+            let s = std_traits(a, b);
+            let xk = if tkind(a) != tkind(b) { m.cmp.get() } else { "-".into() };
+            let mut out = format!(
+                "eq={} cmp={} heq={} cmpeq={} xk={} pairs={} seq={} scmp={} scmpeq={} sheq={} shx={} spairs={}",
+                m.eq.get(),
+                m.cmp.get(),
+                m.heq.get(),
+                m.cmp.is_eq(),
+                xk,
+                m.pairs,
+                s.seq.get(),
+                s.scmp.get(),
+                s.scmp.is_eq(),
+                s.sheq.get(),
+                s.shx.get(),
+                s.n
+            );
+            // "never on the Rust type holding it": the answers must not depend on the representation
+            let mixed: Vec<&str> = [("eq", &m.eq), ("cmp", &m.cmp), ("seq", &s.seq), ("scmp", &s.scmp)]
+                .iter()
+                .filter(|(_, a)| a.mixed())
+                .map(|(n, _)| *n)
+                .collect();
+            if !mixed.is_empty() {
+                out += &format!(" FAIL.representation_dependent={}", mixed.join(","));
+            }
+            if m.eq.get() == "1" && m.heq.get() != "1" {
                 out += " FAIL.eq_not_hash=1";
+            }
+            if s.seq.get() == "1" && s.sheq.get() != "1" {
+                out += " FAIL.std_eq_not_hash=1";
             }
             out
         }
         "c" => {
             let Some(ts) = parse_terms(rest) else { return "bad-op".into() };
-            let mut c = Conv { t: &ts[0], bad: vec![], n: 0 };
+            if ts.len() != 1 {
+                return "bad-op".into();
+            }
+            if !well_formed(&ts[0]) {
+                return "skip=not-well-formed".into();
+            }
+            let mut c = Conv { t: &ts[0], bad: vec![], inexact: vec![], n: 0 };
             with_reprs(&ts[0], &mut c);
-            if c.bad.is_empty() { format!("conv=ok paths={}", c.n) } else { format!("conv=bad FAIL.conversion={}", c.bad.join(",")) }
+            let exact = if c.inexact.is_empty() { "1".to_string() } else { format!("0({})", c.inexact.join(",")) };
+            if c.bad.is_empty() {
+                format!("conv=ok exact={} paths={}", exact, c.n)
+            } else {
+                format!("conv=bad exact={} FAIL.conversion={}", exact, c.bad.join(","))
+            }
         }
         "t" => {
             let Some(ts) = parse_terms(rest) else { return "bad-op".into() };
-            let s: Vec<SimpleTerm> = ts.iter().map(tgen::to_simple).collect();
-            let mut fails = vec![];
-            let e = |i: usize, j: usize| Term::eq(&s[i], &s[j]);
-            let c = |i: usize, j: usize| Term::cmp(&s[i], &s[j]);
+            if ts.len() != 3 {
+                return "bad-op".into();
+            }
+            if !ts.iter().all(well_formed) {
+                return "skip=not-well-formed".into();
+            }
+            let mut eq = [['?'; 3]; 3];
+            let mut cmp = [['?'; 3]; 3];
+            let mut heq = [['?'; 3]; 3];
+            let mut detail = vec![];
             for i in 0..3 {
-                if !e(i, i) || c(i, i) != Ordering::Equal {
-                    fails.push("refl");
-                }
                 for j in 0..3 {
-                    if e(i, j) != e(j, i) {
-                        fails.push("eq_symm");
-                    }
-                    if c(i, j) != c(j, i).reverse() {
-                        fails.push("cmp_swap");
-                    }
-                    if (c(i, j) == Ordering::Equal) != e(i, j) {
-                        fails.push("cmp_eq_iff");
-                    }
-                    for k in 0..3 {
-                        if e(i, j) && e(j, k) && !e(i, k) {
-                            fails.push("eq_trans");
-                        }
-                        if c(i, j) != Ordering::Greater && c(j, k) != Ordering::Greater && c(i, k) == Ordering::Greater {
-                            fails.push("cmp_trans");
+                    let m = matrix(&ts[i], &ts[j]);
+                    eq[i][j] = m.eq.ch();
+                    cmp[i][j] = m.cmp.ch();
+                    heq[i][j] = m.heq.ch();
+                    for (n, a) in [("eq", &m.eq), ("cmp", &m.cmp)] {
+                        if a.mixed() {
+                            detail.push(format!("{}[{}][{}]={}", n, i, j, a.get()));
                         }
                     }
                 }
             }
-            fails.sort();
-            fails.dedup();
-            if fails.is_empty() { "laws=ok".into() } else { format!("laws=bad FAIL.laws={}", fails.join(",")) }
+            let flat = |m: &[[char; 3]; 3]| m.iter().flat_map(|r| r.iter()).collect::<String>();
+            let fails = laws(&eq, &cmp, &heq);
+            let mut out = format!("meq={} mcmp={} mheq={}", flat(&eq), flat(&cmp), flat(&heq));
+            if fails.is_empty() {
+                out += " laws=ok";
+            } else {
+                out += &format!(" laws=bad FAIL.laws={}", fails.join(","));
+                if !detail.is_empty() {
+                    out += &format!(" detail={}", detail.join(";"));
+                }
+            }
+            out
         }
         "ns" => {
             let Some((head, tail)) = rest.split_once('|') else { return "bad-op".into() };
             let hs: Vec<&str> = head.split_whitespace().collect();
+            if hs.len() != 2 {
+                return "bad-op".into();
+            }
             let (Some(ns), Some(suf)) = (unhex(hs[0]), unhex(hs[1])) else { return "bad-hex".into() };
             let Some(b) = T::parse(&mut tail.split_whitespace()) else { return "bad-op".into() };
+            if !well_formed(&b) || IriRef::new(ns.as_str()).is_err() || IriRef::new(format!("{}{}", ns, suf)).is_err() {
+                return "skip=not-well-formed".into();
+            }
             let nsp = Namespace::new_unchecked(ns.as_str());
             let t = nsp.get_unchecked(&suf);
-            let sb = tgen::to_simple(&b);
-            let mut out = format!("nseq={}", Term::eq(&t, &sb) as u8);
-            // symmetric call goes through the default impl
-            out += &format!(" nseq_rev={}", Term::eq(&sb, &t) as u8);
-            out += &format!(" nscmp={}", match Term::cmp(&t, &sb) { Ordering::Less => "lt", Ordering::Equal => "eq", Ordering::Greater => "gt" });
+            // the hand-written override, called on the NsTerm as receiver, against every representation of b
+            struct NsV<'a> {
+                t: sophia_api::ns::NsTerm<'a>,
+                eq: Agg,
+                rev: Agg,
+                cmp: Agg,
+                heq: Agg,
+            }
+            impl Visitor for NsV<'_> {
+                fn visit<Y: Term + std::fmt::Debug>(&mut self, name: &'static str, y: Y) {
+                    let who = || name.to_string();
+                    self.eq.add(b2s(Term::eq(&self.t, y.borrow_term())), &who);
+                    self.eq.add(b2s(self.t == y), &who);
+                    self.rev.add(b2s(Term::eq(&y, self.t)), &who);
+                    self.cmp.add(ord(Term::cmp(&self.t, y.borrow_term())), &who);
+                    self.heq.add(b2s(h(&self.t) == h(&y)), &who);
+                }
+            }
+            let mut v = NsV { t, eq: Agg::default(), rev: Agg::default(), cmp: Agg::default(), heq: Agg::default() };
+            with_reprs(&b, &mut v);
+            let mut out = format!("nseq={} nseq_rev={} nscmp={} nsheq={}", v.eq.get(), v.rev.get(), v.cmp.get(), v.heq.get());
+            if v.eq.get() == "1" && v.heq.get() != "1" {
+                out += " FAIL.eq_not_hash=1";
+            }
+            if v.eq.get() != v.rev.get() {
+                out += " FAIL.eq_symm=1";
+            }
             out
+        }
+        "w" => {
+            let f: Vec<&str> = rest.split_whitespace().collect();
+            if f.len() != 3 {
+                return "bad-op".into();
+            }
+            let (Some(a), Some(b)) = (unhex(f[1]), unhex(f[2])) else { return "bad-hex".into() };
+            let mut r = WRes::default();
+            match f[0] {
+                "iri" => {
+                    if IriRef::new(a.as_str()).is_err() || IriRef::new(b.as_str()).is_err() {
+                        return "skip=not-well-formed".into();
+                    }
+                    wrapper_family!(r, a, b, IriRef);
+                    if sophia_iri::is_absolute_iri_ref(&a) && sophia_iri::is_absolute_iri_ref(&b) {
+                        use sophia_iri::Iri;
+                        wrapper_family!(r, a, b, Iri);
+                    }
+                }
+                "bnode" => {
+                    if BnodeId::new(a.as_str()).is_err() || BnodeId::new(b.as_str()).is_err() {
+                        return "skip=not-well-formed".into();
+                    }
+                    wrapper_family!(r, a, b, BnodeId);
+                }
+                "var" => {
+                    if VarName::new(a.as_str()).is_err() || VarName::new(b.as_str()).is_err() {
+                        return "skip=not-well-formed".into();
+                    }
+                    wrapper_family!(r, a, b, VarName);
+                }
+                "tag" => {
+                    if LanguageTag::new(a.as_str()).is_err() || LanguageTag::new(b.as_str()).is_err() {
+                        return "skip=not-well-formed".into();
+                    }
+                    let (xa, xb) = (LanguageTag::new_unchecked(a.as_str()), LanguageTag::new_unchecked(b.as_str()));
+                    let (oa, ob) = (LanguageTag::new_unchecked(a.clone()), LanguageTag::new_unchecked(b.clone()));
+                    let who = || "LanguageTag".to_string();
+                    r.weq.add(b2s(xa == xb), &who);
+                    r.weq.add(b2s(oa == ob), &who);
+                    r.weq.add(b2s(xa == ob), &who);
+                    r.weq.add(b2s(!(oa != xb)), &who);
+                    r.weq.add(b2s(xa == *b.as_str()), &who);
+                    r.wcmp.add(ord(Ord::cmp(&xa, &xb)), &who);
+                    r.wcmp.add(ord(Ord::cmp(&oa, &ob)), &who);
+                    r.wcmp.add(ord(Ord::cmp(&ob, &oa).reverse()), &who);
+                    r.wcmp.add(pord(PartialOrd::partial_cmp(&xa, &xb)), &who);
+                    r.wcmp.add(pord(PartialOrd::partial_cmp(&oa, b.as_str())), &who);
+                    r.wheq.add(b2s(sh(&xa) == sh(&xb)), &who);
+                    r.wheq.add(b2s(sh(&oa) == sh(&ob)), &who);
+                    r.wheq.add(b2s(sh(&xa) == sh(&ob)), &who);
+                }
+                _ => return "bad-op".into(),
+            }
+            let mut out = format!("weq={} wcmp={} wcmpeq={} wheq={} wborrow={}", r.weq.get(), r.wcmp.get(), r.wcmp.is_eq(), r.wheq.get(), r.wborrow.get());
+            if r.weq.get() == "1" && r.wheq.get() != "1" {
+                out += " FAIL.eq_not_hash=1";
+            }
+            out
+        }
+        "g" => {
+            let Some(ts) = parse_opt_terms(rest) else { return "bad-op".into() };
+            if ts.len() != 2 {
+                return "bad-op".into();
+            }
+            if !ts.iter().flatten().all(well_formed) {
+                return "skip=not-well-formed".into();
+            }
+            let sa = ts[0].as_ref().map(tgen::to_simple);
+            let sb = ts[1].as_ref().map(tgen::to_simple);
+            let aa = sa.as_ref().map(|t| ArcTerm::from_term(t.borrow_term()));
+            let ab = sb.as_ref().map(|t| ArcTerm::from_term(t.borrow_term()));
+            let mut r = Agg::default();
+            let who = || "graph_name_eq".to_string();
+            r.add(b2s(graph_name_eq(sa.as_ref(), sb.as_ref())), &who);
+            r.add(b2s(graph_name_eq(sb.as_ref(), sa.as_ref())), &who);
+            r.add(b2s(graph_name_eq(aa.as_ref(), sb.as_ref())), &who);
+            r.add(b2s(graph_name_eq(sa.as_ref(), ab.clone())), &who);
+            r.add(b2s(graph_name_eq(aa.as_ref().map(CmpTerm), ab.as_ref())), &who);
+            format!("gneq={}", r.get())
         }
         _ => "bad-op".into(),
     }
